@@ -225,11 +225,22 @@ def r2_reported(ctx, prog):
                     nfail += 1
                     if oc['ret'] in ('CKR_OK', '0') or oc['retv'] in (0, '0'):
                         bad = oc
-        site = 'false from %s' % m
+        # must-pass-through: a verify function reports CKR_OK only on a path on which the verifying call happened and succeeded
+        if q in ('MacVerify', 'AsymVerify', 'MacVerifyFinal', 'AsymVerifyFinal') and not bad:
+            fam = {'verify', 'verifyFinal'}
+            o2 = outcomes(f, prog, {}, record=fam, rounds=1, cap=256)
+            for oc in o2.outcomes:
+                if oc['ret'] in ('CKR_OK', '0') or oc['retv'] in (0, '0'):
+                    okev = [i for i, e in enumerate(oc['events']) if e[0] == 'call' and e[1] in fam and fact_of(oc, e[1], e[3], i) is True]
+                    if not okev:
+                        bad = oc
+                        nfail = max(nfail, 1)
+                        m = 'verify/verifyFinal (never called or its result not tested on this path)'
+        site = 'false from %s' % (m if ' ' not in m else 'verify')
         if nfail == 0:
             r.undecided(q, site, 'no path with a failing %s found' % m, file=f['file'], line=f['line'])
         elif bad:
-            r.violation(q, site, '%s returned false and the function still returns CKR_OK' % m, file=f['file'], line=bad['line'], path=bad['path'])
+            r.violation(q, site, ('%s returned false and the function still returns CKR_OK' % m) if ' ' not in m else 'a path returns CKR_OK without a successful %s: any signature of the right length is accepted' % m, file=f['file'], line=bad['line'], path=bad['path'])
         else:
             r.ok(q, site, '%d failing paths, none returns CKR_OK' % nfail, file=f['file'], line=f['line'])
 
@@ -312,6 +323,8 @@ def run(ctx):
     r1_accept(ctx, configs)
     r2_reported(ctx, ossl)
     r3_stripped_length(ctx, configs)
+    from rules import c06
+    c06.r6_read_diamond(ctx, ossl, rule_id='C10.R4')
 
 
 MUTANTS = [
